@@ -288,3 +288,51 @@ def run_issues(ctx, n, drv=None):
         if e != o:
             mm.append(Mismatch('issues', i, dict(kind='Normalizer.add_issue' if k == 0 else 'ErrorFinder.add_issue+finalize', calls=seq), e, o))
     return mm
+
+
+def run_nav(ctx, n, drv=None, max_pos=60):
+    """Nav.v (zipper stepping, binary-search lookup) vs NodeOrLeaf.get_next_leaf / get_previous_leaf / get_leaf_for_position"""
+    import parso
+    drv = drv or Driver()
+    cases = []
+    for i in range(n):
+        r = gens.rng(ctx.seed, 'nav-opt', i)
+        kind, code = gens.text_case(ctx.seed, 'nav', i)
+        code = code[:400]
+        v = r.choice(versions())
+        try:
+            m = parso.load_grammar(version=v).parse(code)
+        except Exception:
+            continue
+        paths = {}
+        for p, nd in node_paths(m):
+            paths[id(nd)] = p
+        ps = lambda p: '.'.join(map(str, p))
+        opt = lambda nd: 'None' if nd is None else ps(paths[id(nd)])
+        leaves = [(p, nd) for p, nd in node_paths(m) if not hasattr(nd, 'children')]
+        a = ';'.join('%s>%s<%s' % (ps(p), opt(nd.get_next_leaf()), opt(nd.get_previous_leaf())) for p, nd in leaves)
+        lines = split_lines(code)
+        allpos = [(ln, col) for ln, text in enumerate(lines, 1) for col in range(len(text) + 2)] + [(0, 0), (len(lines) + 1, 0)]
+        poss = r.sample(allpos, min(max_pos, len(allpos)))
+        b = []
+        for (l, c) in poss:
+            for incl in (True, False):
+                try:
+                    res = opt(m.get_leaf_for_position((l, c), include_prefixes=incl))
+                except ValueError:
+                    res = 'ValueError'
+                b.append('%d,%d,%d=%s' % (l, c, int(incl), res))
+        e = 'F:%s L:%s|%s|%s' % (ps(paths[id(m.get_first_leaf())]), ps(paths[id(m.get_last_leaf())]), a, ';'.join(b))
+        req = 'nav %s %s %d %s' % (impl.vn(v), impl.enc_str(code), len(poss), ' '.join('%d %d' % x for x in poss))
+        cases.append((v, code, e, req))
+    outs = drv.run([c[3] for c in cases])
+    mm = []
+    for i, ((v, code, e, req), o) in enumerate(zip(cases, outs)):
+        ctx.count('nav')
+        if ';' in e:
+            ctx.nontrivial(('nav', e))
+        if e != o:
+            mm.append(Mismatch('nav', i, dict(version=v, text=code), e, o))
+    if cases:
+        ctx.sample(dict(stream='nav', text=cases[0][1][:100], answer=cases[0][2][:200]))
+    return mm
